@@ -94,13 +94,21 @@ class Judge:
             ctree = cparse(s, mode)
         e = norm(ctree)
         try:
-            with harness.alarm(CASE_ALARM):
-                t = self.xparse(s, mode)
+            try:
+                with harness.alarm(CASE_ALARM):
+                    t = self.xparse(s, mode)
+            except harness.CaseTimeout:
+                # the wall-clock alarm is only a watchdog (a loaded machine can stall any process for seconds): the verdict
+                # needs the same input to exceed a budget ten times as large on a fresh parser
+                self.p = self.Parser()
+                self.transient_timeouts = getattr(self, "transient_timeouts", 0) + 1
+                with harness.alarm(10 * CASE_ALARM):
+                    t = self.xparse(s, mode)
         except SyntaxError as x:
             return "REJECT", str(x)[:100]
         except harness.CaseTimeout:
             self.p = self.Parser()
-            return "HANG", f"> {CASE_ALARM}s"
+            return "HANG", f"> {10 * CASE_ALARM}s"
         except RecursionError:
             return "RECURSION", None
         except Exception as x:
